@@ -8,6 +8,7 @@ import (
 	"fmt"
 	"os"
 	"reflect"
+	"strconv"
 	"strings"
 
 	"github.com/llir/llvm/asm"
@@ -429,6 +430,34 @@ func init() {
 			return o
 		}
 		return "ok " + listsOf(m)
+	})
+	// C04 at name level: which comdat and which attribute groups each global variable / function is bound to (by the NAME / ID of the bound object)
+	reg("mod.refs", func(a []string) string {
+		m, o := parseOutcome(string(unhexArg(a[1])))
+		if m == nil {
+			return o
+		}
+		var parts []string
+		one := func(tag string, i int, cd *ir.ComdatDef, attrs []ir.FuncAttribute) {
+			c := ""
+			if cd != nil {
+				c = hexOut([]byte(cd.Name))
+			}
+			var ags []string
+			for _, at := range attrs {
+				if ag, ok := at.(*ir.AttrGroupDef); ok {
+					ags = append(ags, strconv.FormatInt(ag.ID, 10))
+				}
+			}
+			parts = append(parts, fmt.Sprintf("%s%d:C=%s;A=%s", tag, i, c, strings.Join(ags, ",")))
+		}
+		for i, g := range m.Globals {
+			one("G", i, g.Comdat, g.FuncAttrs)
+		}
+		for i, f := range m.Funcs {
+			one("F", i, f.Comdat, f.FuncAttrs)
+		}
+		return "ok " + strings.Join(parts, " ")
 	})
 	// C04: every reference is the listed definition; parents agree with containment; no placeholder
 	reg("mod.closure", func(a []string) string {
